@@ -85,7 +85,7 @@ pub fn run(ctx: &Ctx) {
     // a single failing request while every other request succeeds: the worker that hit the failure finishes first
     // (none of the first 60 answers matches, so no other worker can have finished), and the search must end with an error
     let once: Vec<(u64, &str)> = [1u64, 2, 3, 5].iter().flat_map(|k| ["1", "2", "4"].iter().map(move |j| (*k, *j))).collect();
-    ctx.sweep("vanity-one-shot-failure", "vanity search for 0xfff with ONLY request k failing (k in {1, 2, 3, 5}) x -j {1, 2, 4}; the first 60 answers do not match: error exit, nothing printed", once.len() as u64, |i| {
+    ctx.sweep("vanity-one-shot-failure", "vanity search for 0xfff with ONLY request k failing (k in {1, 2, 3, 5}) x -j {1, 2, 4}; the first 60 answers do not match: error exit and nothing printed, or (several workers) the matching phrase of a generation whose own requests were all answered", once.len() as u64, |i| {
         let (k, j) = once[i as usize]; let mut seed = 4000 + i * 1000;
         'pick: loop { for q in 0..60 { let e = stream_bytes(seed, q, 16); let key = key_of(&curve, &bip39::entropy_to_phrase(&e), "", &default_path(0)); if address_has_prefix(&eth::address_of_secret(&curve, &key), &[15, 15, 15]) { seed += 1; continue 'pick; } } break; }
         let cmd = Cmd::new(&["new", "--vanity-prefix", "0xfff", "-j", j]).timeout(600);
@@ -97,7 +97,11 @@ pub fn run(ctx: &Ctx) {
         else if r.ok() || !r.stdout.is_empty() {
             let before: Vec<Req> = reqs.iter().take_while(|q| q.ok).cloned().collect(); let line = r.line(); let toks: Vec<&str> = line.split(' ').collect();
             let early = bip39::tokens_to_entropy(&toks).ok().map_or(false, |ent| carried_by(&ent, &before) && address_has_prefix(&eth::address_of_secret(&curve, &key_of(&curve, &line, "", &default_path(0))), &[15, 15, 15]));
-            if early { ctx.eval("vanity-one-shot:matched-before-the-failure"); } else { ctx.violation(format!("{P}:new:{shape}:phrase-despite-failure"), format!("request {k} of the entropy source failed (and the printed phrase is not made of answers given before it) but the tool printed {:?} after {} requests", trunc(&r.line(), 120), reqs.len()), full.replay("vanity-one-shot-failure", i, Build::Release)) } }
+            // with several workers, a worker whose own generation succeeded may legitimately deliver its matching phrase although
+            // another worker's generation failed (the failure is reported to that generation, which fails); with one worker
+            // a phrase after the failure would mean the failed generation was silently retried
+            let by_another_worker = j != "1" && bip39::tokens_to_entropy(&toks).ok().map_or(false, |ent| carried_by(&ent, &reqs) && toks.len() == 12 && address_has_prefix(&eth::address_of_secret(&curve, &key_of(&curve, &line, "", &default_path(0))), &[15, 15, 15]));
+            if early { ctx.eval("vanity-one-shot:matched-before-the-failure"); } else if by_another_worker { ctx.eval("vanity-one-shot:another-worker-matched-after-the-failure"); } else { ctx.violation(format!("{P}:new:{shape}:phrase-despite-failure"), format!("request {k} of the entropy source failed (and the printed phrase is not made of answers given before it) but the tool printed {:?} after {} requests", trunc(&r.line(), 120), reqs.len()), full.replay("vanity-one-shot-failure", i, Build::Release)) } }
     });
     let lens5 = [12usize, 15, 18, 21, 24]; let jobs3 = ["0", "1", "2"]; let rounds = if ctx.quick() { 1u64 } else { 6 };
     ctx.sweep("vanity-data-flow", "vanity search for each of the 16 single hex digits x every supported length x -j {0, 1, 2} (thorough: 6 entropy streams) under a scripted stream: every byte of the printed phrase's entropy is a byte the source returned", 16 * 5 * 3 * rounds, |i| {
